@@ -1,13 +1,13 @@
 SPECIFICATION Spec
 CONSTANTS
   DevMappedPass = FALSE
-  DevBench19Pass = TRUE
+  DevBench19Pass = FALSE
   DevSelfUnfiltered = FALSE
   DevWarnLeak = FALSE
   DevStaleSurvivesOff = FALSE
-  Prevs = {"none"}
+  Prevs = {"none", "pub", "priv"}
   Modes = {"on", "warn", "off"}
   Allows = {TRUE, FALSE}
   Ctls = {"any", "loopback", "private", "public"}
-INVARIANT C34_ClassifierMeetsContract
+INVARIANT Reach_OffAfterHistory
 CHECK_DEADLOCK FALSE
